@@ -406,3 +406,66 @@ def cutoff_arithmetic(ctx):
     return [("selects_exactly_the_longer_notes", hyp, selected == (off_t - on_t > m), f"`{_ast.unparse(test)}`  <=>  duration > maximum"),
             ("shortened_to_the_replacement", hyp, new_off - on_t == r, f"`{tgt} = {_ast.unparse(assign.value)}`: the note then lasts exactly reduced_length"),
             ("writes_the_note_off_only", hyp, z3.BoolVal(tgt == "message_pairing[1].time"), f"assignment target is `{tgt}`")]
+
+
+@lemma("dictionary_ids_are_consecutive", ["C02"])
+def dictionary_ids_are_consecutive(ctx):
+    """Structure of `_construct_dictionary` (checked on the real AST on every run): every store `self.dictionary[key] = id` is immediately
+    followed IN THE SAME BLOCK by `self._dictionary_size += 1`; the id is `self.dictionary_size` (or, in the straight-line prefix, the literal
+    equal to the number of stores before it); `_dictionary_size` is written nowhere else in the function.  By induction over the execution,
+    `_dictionary_size` is the number of stores so far at every store, hence the ids handed out are 0, 1, 2, ... in order (the size equals the
+    number of stores; distinctness of the KEYS is the separate vocabulary clause)."""
+    import ast as _ast
+    fn, _ = ctx.sources.find("MultiTrackLargeVocabularyNotelikeTokeniser._construct_dictionary")
+    if fn is None:
+        raise KeyError("_construct_dictionary not found")
+    is_store = lambda s: (isinstance(s, _ast.Assign) and len(s.targets) == 1 and isinstance(s.targets[0], _ast.Subscript)
+                          and _ast.unparse(s.targets[0].value) == "self.dictionary")
+    is_inc = lambda s: (isinstance(s, _ast.AugAssign) and _ast.unparse(s.target) == "self._dictionary_size" and isinstance(s.op, _ast.Add)
+                        and isinstance(s.value, _ast.Constant) and s.value.value == 1)
+    paired, ids_ok, n_stores, n_incs, prefix = True, True, 0, 0, 0
+    details = []
+
+    def walk(block, top):
+        nonlocal paired, ids_ok, n_stores, n_incs, prefix
+        for k, s in enumerate(block):
+            if is_store(s):
+                n_stores += 1
+                nxt = block[k + 1] if k + 1 < len(block) else None
+                if nxt is None or not is_inc(nxt):
+                    paired = False
+                    details.append(f"line {s.lineno}: store not followed by the increment in its block")
+                v = s.value
+                if isinstance(v, _ast.Constant):
+                    if not (top and v.value == prefix):
+                        ids_ok = False
+                        details.append(f"line {s.lineno}: literal id {v.value} is not the number of stores before it ({prefix})")
+                elif _ast.unparse(v) not in ("self.dictionary_size", "self._dictionary_size"):
+                    ids_ok = False
+                    details.append(f"line {s.lineno}: id expression `{_ast.unparse(v)}`")
+                if top:
+                    prefix += 1
+            elif is_inc(s):
+                n_incs += 1
+                if k == 0 or not is_store(block[k - 1]):
+                    paired = False
+                    details.append(f"line {s.lineno}: increment without a store before it")
+            else:
+                if top and isinstance(s, (_ast.For, _ast.While, _ast.If)):
+                    prefix = -10 ** 9          # literals are only allowed before the first compound statement
+                for f_ in ("body", "orelse"):
+                    sub = getattr(s, f_, None)
+                    if isinstance(sub, list) and sub and isinstance(sub[0], _ast.stmt):
+                        walk(sub, False)
+    walk(fn.body, True)
+    other_writes = [n.lineno for n in _ast.walk(fn) if isinstance(n, (_ast.Assign, _ast.AugAssign)) and "_dictionary_size" in _ast.unparse(n.targets[0] if isinstance(n, _ast.Assign) else n.target) and not is_inc(n)]
+    prop_ok = True
+    cls = ctx.sources.classes.get("MultiTrackLargeVocabularyNotelikeTokeniser", {})
+    getter = cls.get("methods", {}).get("dictionary_size")
+    if getter is not None:
+        rets = [n for n in _ast.walk(getter) if isinstance(n, _ast.Return)]
+        prop_ok = len(rets) == 1 and _ast.unparse(rets[0].value) == "self._dictionary_size"
+    txt = "; ".join(details[:4])
+    return [("every_store_is_followed_by_one_increment", [], z3.BoolVal(paired and n_stores == n_incs and n_stores > 0), f"{n_stores} stores, {n_incs} increments {txt}"),
+            ("ids_are_the_running_size", [], z3.BoolVal(ids_ok and prop_ok), f"id expressions are the running size {txt}"),
+            ("size_is_written_nowhere_else", [], z3.BoolVal(not other_writes), f"other writes at lines {other_writes}")]
